@@ -300,8 +300,16 @@ func (fr *Frame) contractCall(fn *ssa.Function, fc *FuncContract, args []Val, bi
 	post := vc.paramEnv(fn, fc, args, bind, st, pre)
 	bindResults(post, sig, results)
 	samePkg := vc.root != nil && fnPkgPath(vc.root) == fnPkgPath(fn)
+	defer vc.withTag('E')()
 	for _, c := range fc.Ensures {
 		if c.Local && !samePkg {
+			continue
+		}
+		if strings.HasPrefix(c.Name, "inv") {
+			// invariant re-establishment: bulky, rarely needed by the next few steps (slicing tag 'V')
+			untag := vc.withTag('V')
+			vc.assume(st, post.clause(c))
+			untag()
 			continue
 		}
 		vc.assume(st, post.clause(c))
@@ -371,7 +379,18 @@ func (e *Engine) newVC(fn *ssa.Function, fc *FuncContract) *VC {
 
 // verifyFunc generates all obligations for fn under contract fc (fc may be nil for sweeps).
 func (e *Engine) verifyFunc(fn *ssa.Function, fc *FuncContract, sweepProps []string) (vc *VC) {
+	// pass 1 finds out which abstract (opaque) functions the VC mentions; pass 2 maintains frames only for those
+	first := e.verifyFuncPass(fn, fc, sweepProps, nil)
+	if first.failed != "" || len(first.usedPreds) == len(first.preds) {
+		return first
+	}
+	return e.verifyFuncPass(fn, fc, sweepProps, first.usedPreds)
+}
+
+func (e *Engine) verifyFuncPass(fn *ssa.Function, fc *FuncContract, sweepProps []string, only map[string]bool) (vc *VC) {
 	vc = e.newVC(fn, fc)
+	vc.onlyPreds = only
+	vc.usedPreds = map[string]bool{}
 	if fc == nil {
 		vc.props = sweepProps
 	} else if len(vc.props) == 0 {
@@ -390,9 +409,11 @@ func (e *Engine) verifyFunc(fn *ssa.Function, fc *FuncContract, sweepProps []str
 	args, bind := vc.symbolicArgs(fn, st)
 	env := vc.paramEnv(fn, fc, args, bind, st, st)
 	if fc != nil {
+		untag := vc.withTag('R')
 		for _, c := range fc.Requires {
 			vc.assume(st, env.clause(c))
 		}
+		untag()
 		if w := fc.Flags["wired"]; w != "" {
 			depth := 1
 			fmt.Sscanf(w, "%d", &depth)
@@ -477,7 +498,9 @@ func (vc *VC) exitObligations(fn *ssa.Function, fc *FuncContract, args, bind []V
 			g := post.clause(c)
 			vc.oblige(res.st, "ensures", vc.oname(c.Name+suffix), vc.pos(fn.Pos()), "postcondition: "+c.Src, g, c.Props)
 			// later postconditions may use earlier ones as lemmas (each is still proved on its own)
+			untag := vc.withTag('L')
 			vc.assume(res.st, g)
+			untag()
 		}
 		if fc.HasMod {
 			pre := vc.paramEnv(fn, fc, args, bind, vc.entry, vc.entry)
@@ -538,8 +561,8 @@ func (vc *VC) wiredFields(st *State, p *VPtr, t types.Type, depth int, seen map[
 
 func (vc *VC) frameObligations(fin *State, ts []modTarget, suffix string) {
 	for _, k := range sortedKeys(fin.heap) {
-		if strings.HasPrefix(k, "$") {
-			continue
+		if strings.HasPrefix(k, "$") || strings.HasPrefix(k, "P$") {
+			continue // clock / ghost families of abstract functions are derived state
 		}
 		cur := fin.heap[k]
 		srt := vc.famSort[k]
